@@ -555,7 +555,12 @@ func (s *Server) cmdNearby(msg *Message) (res resp.Value, err error) {
 			}
 			return keepGoing
 		}
-		maxDist := sargs.obj.(*geojson.Circle).Meters()
+		circle, ok := sargs.obj.(*geojson.Circle)
+		if !ok {
+			// the area is no longer the point/radius circle (e.g. BUFFER)
+			return NOMessage, errInvalidArgument("buffer")
+		}
+		maxDist := circle.Meters()
 		if sargs.sparse > 0 {
 			if maxDist < 0 {
 				// error cannot use SPARSE and KNN together
